@@ -842,6 +842,10 @@ func (e *connectWireError) MarshalJSON() ([]byte, error) {
 		}
 		wire.Details = details
 	}
+	// Error messages may quote arbitrary bytes (for example undecodable input),
+	// but a Protobuf string must be valid UTF-8 or marshaling fails and the peer
+	// gets no error payload at all.
+	wire.Message = strings.ToValidUTF8(wire.Message, "\uFFFD")
 	return (&protoJSONCodec{}).Marshal(wire)
 }
 
